@@ -270,6 +270,7 @@ def run_shard(ctx):
             break
         r = core.rng_for(ctx.seed, 'C08', i)
         limit_mode = None
+        trailing_model = None
         if i % 5 == 4:
             text, mode, lim, off = fedgen.limit_query(r)
             ordered = mode == 'ordered'
@@ -281,6 +282,11 @@ def run_shard(ctx):
         elif i % 5 == 3 and i % 2 == 1:
             text, ordered, feats = fedgen.cte_query(r), False, {'cte-name-shapes'}
             acc.count('cte_shapes')
+        elif i % 10 == 2:
+            # set operation across integrations with trailing ORDER BY .. LIMIT (clauses of the whole set operation)
+            text, trailing_model, op = selgen.setop_trailing(r, fedgen.qual_multi)
+            ordered, feats = True, {'setop-trailing-order-limit', 'setop:' + op}
+            acc.count('setop_trailing_shapes')
         else:
             text, ordered, feats = fedgen.fed_query(r, single=False)
         kw, desc = fedgen.catalog(r, form=[0, 1, 2, 4][i % 4])
@@ -309,7 +315,22 @@ def run_shard(ctx):
                 bad = (st, d)
                 break
         acc.counters['not_interpretable_pct_ok'] = 1
-        if bad and limit_mode is not None:
+        if bad and trailing_model is not None:
+            st, d = bad
+            # executable model of C08-F5: is what the plan returns exactly the other reading (clauses bound to the last SELECT)?
+            kind = d['kind']
+            db2 = make_db(st)
+            try:
+                if norm(db2.execute(trailing_model).fetchall()) == norm(d['got']):
+                    kind = 'setop-trailing-clause-bound-to-last-select'
+            except sqlite3.Error:
+                pass
+            finally:
+                db2.close()
+            acc.fail({'kind': kind, 'stmt': 'Union', 'clauses': 'trailing-order-limit', 'limit_pushed_into_fetch': False, 'cte_name_clash': '-'},
+                     {'query': text, 'reduced_query': text, 'other_reading': trailing_model, 'catalog': desc, 'state': st, 'expected': repr(d['expected'])[:400],
+                      'got': repr(d['got'])[:400], 'plan': [repr(s_)[:200] for s_ in d['plan'].steps][:10]})
+        elif bad and limit_mode is not None:
             st, d = bad
             acc.fail(dict(features(parse_sql(text, 'mindsdb')), kind=d['kind'], limit_pushed_into_fetch=limit_pushed(d['plan']), cte_name_clash='-'),
                      {'query': text, 'reduced_query': text, 'catalog': desc, 'state': st, 'expected': d['expected'][:400], 'got': repr(d['got'])[:400],
